@@ -8,6 +8,8 @@ import (
 	"io"
 	"io/ioutil"
 	"sync"
+	"sync/atomic"
+	"time"
 
 	"github.com/oneconcern/datamon/pkg/storage"
 )
@@ -32,9 +34,10 @@ type PutLog struct {
 // under one lock, so the order of the log is the order in which the writes took effect.
 type Recorder struct {
 	storage.Store
-	Log  *PutLog
-	Op   int
-	Name string
+	Log   *PutLog
+	Op    int
+	Name  string
+	Delay *int32 // when set: the number of writes still to be slowed down (a slow link), shared by the stores of one operation
 }
 
 func (r *Recorder) Put(ctx context.Context, k string, rd io.Reader, noOverwrite bool) error {
@@ -43,9 +46,19 @@ func (r *Recorder) Put(ctx context.Context, k string, rd io.Reader, noOverwrite 
 		return err
 	}
 	sum := sha256.Sum256(b)
+	if r.Delay != nil && atomic.AddInt32(r.Delay, -1) >= 0 {
+		time.Sleep(1200 * time.Millisecond)
+	}
 	r.Log.mu.Lock()
 	err = r.Store.Put(ctx, k, bytes.NewReader(b), noOverwrite)
 	r.Log.Puts = append(r.Log.Puts, PutRecord{Op: r.Op, Store: r.Name, Key: k, Digest: hex.EncodeToString(sum[:8]), Excl: noOverwrite, Ok: err == nil})
 	r.Log.mu.Unlock()
 	return err
+}
+
+// Snapshot returns the log so far.
+func (l *PutLog) Snapshot() []PutRecord {
+	l.mu.Lock()
+	defer l.mu.Unlock()
+	return append([]PutRecord{}, l.Puts...)
 }
